@@ -40,6 +40,15 @@ theorem EngineTie_scan (P : Project) (g : G) (w : World) (t : Nat) :
   obtain ⟨⟨i, gd, ps, ls⟩, h⟩ := Option.isSome_iff_exists.1 execScan_isSome
   exact ⟨i, gd, ps, ls, h, scanGen_eq P g w t h⟩
 
+/-- Outside the static model: whatever nodes are provisional, the extracted loop passes over a provisional node that
+is not a predecessor (`continue`, not `break`): the rest of the neighbours is still examined. -/
+theorem EngineTie_scan_skips_provisional (P : Project) (g : G) (w : World) (t : Nat) (prov : Nat → Bool) (v : Nat) (vs : List Nat) :
+    ∃ i gd ps ls, execScan = some (i, gd, ps, ls) ∧
+      (prov v = true → inPredSet g t ps v = false →
+        scanGen P g w t ps ls prov false (v :: vs) = scanGen P g w t ps ls prov false vs) := by
+  obtain ⟨⟨i, gd, ps, ls⟩, h⟩ := Option.isSome_iff_exists.1 execScan_isSome
+  exact ⟨i, gd, ps, ls, h, scanGen_skips_provisional P g w t h prov v vs⟩
+
 /-- Every implementation of `pytask_execute_task_setup` that pluggy calls (`Generated.setupOrder`: provisional,
 skipping, persist, execute), interpreted from its extracted list of guarded `raise`s, raises exactly what the
 hand-written `setupImpl` says — for every project, graph, configuration, session and task. -/
